@@ -1,7 +1,7 @@
 (* Property predicates of C04 / C05 / C06 / C11 / C12 evaluated on what the whole analysis returned
    (harness/src/cmd_analyze.rs), against ground truth supplied by the generators. *)
 From Coq Require Import String.
-From SLX Require Import Base gen.Constants gen.ValueSig SymVal VM AbiT VmCases.
+From SLX Require Import Base gen.Constants gen.ValueSig SymVal Disasm VM AbiT VmCases.
 Open Scope N_scope.
 
 Definition e_index (e : entry) : N := fst (fst e).
@@ -136,6 +136,36 @@ Definition c06_code (c : c056case) : N :=
   | 2 => 78
   | _ => 0
   end.
+
+(* the same with the ground truth taken from the MODEL's run of the program (tied to the code by the VM
+   correspondence suites and the translated opcode bodies), not from the implementation's own states: a change
+   that makes the implementation forget an access is then seen as a missing entry.  73: a literal key of a path
+   the model explores has no entry; 0 when the model's run does not finish normally. *)
+Definition model_literal_keys (bytes : list byte) (cfg : config) : list N :=
+  match try_from bytes with
+  | Ok code =>
+      match model_run code cfg with
+      | RDone m => flat_map (fun st => flat_map (fun k => match as_word k with Some w => [w] | None => [] end)
+                                               (map fst (sto_known (fst st)))) (v_stored m)
+      | _ => []
+      end
+  | _ => []
+  end.
+
+Definition c06m_code (bytes : list byte) (cfg : config) (c : c056case) : N :=
+  match c06_code c with
+  | 0 =>
+      match xa_class (s_res c) with
+      | 0 =>
+          let slots := map e_index (xa_layout (s_res c)) in
+          let lits := filter (fun w => negb (existsb (fun p => fst p =? w) (s_preimages c))) (model_literal_keys bytes cfg) in
+          if forallb (fun w => existsb (N.eqb w) slots) lits then 0 else 73
+      | _ => 0
+      end
+  | n => n
+  end.
+Definition c06m_keys (bytes : list byte) (cfg : config) (c : c056case) : N :=
+  N.of_nat (length (model_literal_keys bytes cfg)).
 
 (* ---- C11: locality and renaming ---- *)
 Definition layout_eqb (a b : list entry) : bool := list_eqb entry_eqb a b.
